@@ -341,11 +341,9 @@ def one_case(ck, rng, coq_in, length):
             mine = [h.connection_id for kk, h in b.handles if kk == k and h.connection_id in conns_before]
             b.uninstall(k)
             ck.count("op:client-uninstall")
-            left = [c for c in mine if c in db.connections]
-            if left and srv_on and running and not b.blocked:
-                violation("uninstalled-client-left-connections-open", "after uninstalling the client %d of its connections are still open on the reachable server" % len(left))
-            if not left:
-                closed.update(mine)
+            # (what the server does with the disconnects that reach it is compared with the model; the property does not say
+            #  that an uninstall must close connections, e.g. ones whose client-side handle was dropped while the server was off)
+            closed.update(c for c in mine if c not in db.connections)
             from primaite.simulator.system.applications.database_client import DatabaseClient
             b.clients[k].software_manager.install(DatabaseClient, software_config=DatabaseClient.ConfigSchema(db_server_ip="10.0.2.10"))
             b.clients[k].software_manager.software["database-client"].run()
